@@ -61,6 +61,8 @@ RULE = ("random sequences of ask / ask_dqd / tell / tell_dqd calls (about 30 % o
         "contains a rejected call made after rows were inserted; counted once per distinct op list")
 PARTIAL = []
 ASSUMPTIONS = [
+    "constructor options whose value equals the documented default (Scheduler add_mode='batch', result_archive=None; "
+    "archive dtype float64, extra_fields None) are omitted from the call; model and oracle use the documented value",
     "a solution is the token (emitter, iteration, position); every per-row value handed to tell (objective, "
     "measures, extra fields, Jacobian) is derived injectively from (iteration, row position) by the harness",
     "the archive is observed through a subclass that records the arguments and the return value of add / "
@@ -329,7 +331,13 @@ def build(case, mode):
     def cfg(is_result):
         who = "result" if is_result else "main"
         extra = {"tag": ((), XDTYPES[xdts[who][0]]), "vec": ((2,), XDTYPES[xdts[who][1]])} if case["extra"] else None
-        return {"dtype": DTYPES[dts[who]](), "extra_fields": extra}
+        # options whose value is the documented default are omitted, so that the defaults themselves are exercised
+        out = {}
+        if dts[who] != "f64":
+            out["dtype"] = DTYPES[dts[who]]()
+        if extra is not None:
+            out["extra_fields"] = extra
+        return out
 
     def grid(is_result, **kw):
         return recording(GridArchive, log, is_result)(solution_dim=SOLDIM, dims=[4, 4],
@@ -345,7 +353,14 @@ def build(case, mode):
     else:
         archive, result = grid(False), (grid(True) if case["result"] else None)
     spies = make_spies(archive, case["emitters"], log)
-    sched = Scheduler(archive, spies, result_archive=result, add_mode=mode)
+    # documented defaults (result_archive=None, add_mode="batch") are left to the constructor; the model and the
+    # oracle are told the documented value
+    opts = {}
+    if result is not None:
+        opts["result_archive"] = result
+    if mode != "batch":
+        opts["add_mode"] = mode
+    sched = Scheduler(archive, spies, **opts)
     return sched, archive, result, spies, log
 
 
